@@ -141,6 +141,27 @@ fn check(t: &mut Tape, ctx: &mut Ctx) -> CheckResult {
     let ssp = sv::SOH::spider(sv::ff(f.d.s.clone(), nn), sv::ff(f.d.t.clone(), nn), sv::ty(&w)).ok_or_else(|| ctx.fail("constructors-agree", "strict spider rejected in-range legs"))?;
     require_iso(ctx, "constructors-agree", &strictify(ctx, &lsp, "strict(lax spider)")?, &wf(ctx, "strictify-wf", sv::from_strict(&ssp), "spider")?, "strict(lax spider) vs strict spider")?;
 
+    // thin public wrappers and deprecated aliases must agree with what they wrap
+    ctx.sub("aliases-agree");
+    {
+        use open_hypergraphs::category::Monoidal;
+        let ti = <LOH as Arrow>::identity(obs(&a));
+        ensure!(ctx, ti == li, "aliases-agree", "Arrow::identity differs from OpenHypergraph::identity");
+        ensure!(ctx, <LOH as Monoidal>::unit().is_empty(), "aliases-agree", "lax Monoidal::unit is not the empty type");
+        #[allow(deprecated)]
+        {
+            let s1 = lf.clone().to_open_hypergraph();
+            let s2 = lf.clone().to_strict();
+            ensure!(ctx, s1.s == s2.s && s1.t == s2.t && s1.h.s == s2.h.s && s1.h.t == s2.h.t && s1.h.w == s2.h.w && s1.h.x == s2.h.x, "aliases-agree", "to_open_hypergraph differs from to_strict");
+            let (mut q1, mut q2) = (lf.clone(), lf.clone());
+            let (r1, r2) = (q1.quotient_witness(), q2.quotient());
+            ensure!(ctx, r1.is_ok() == r2.is_ok() && q1 == q2, "aliases-agree", "quotient_witness differs from quotient");
+            let idf = open_hypergraphs::lax::functor::dyn_functor::Identity;
+            let m1 = open_hypergraphs::lax::functor::define_map_arrow(&idf, &plain);
+            let m2 = open_hypergraphs::lax::functor::dyn_functor::define_map_arrow(&idf, &plain);
+            ensure!(ctx, m1 == m2, "aliases-agree", "lax::functor::define_map_arrow (deprecated shim) differs from dyn_functor::define_map_arrow");
+        }
+    }
     let has_edge = !f.d.edges.is_empty() || !g.d.edges.is_empty();
     if has_edge && ((types_match && !f.d.t.is_empty()) || !f.q.is_empty() || !g.q.is_empty()) {
         ctx.nontrivial(&(&f, &g));
